@@ -122,6 +122,8 @@ def rtsafe_(f, x0, bracket, settings):
         root, dx, dxOld, F, DF, xl, xh, converged, i = carry
         
         newtonOutOfRange = np.sign((root - xh)*DF - F) * np.sign((root - xl)*DF - F) > 0
+        # a Newton step from a point of infinite slope is zero and would pass for convergence
+        newtonOutOfRange = newtonOutOfRange | np.isinf(DF)
         newtonDecreasingSlowly = np.abs(2.*F) > np.abs(dxOld*DF)
         dxOld = dx
         root, dx, converged = jax.lax.cond(newtonOutOfRange | newtonDecreasingSlowly,
